@@ -19,7 +19,7 @@ pub mod slice;
 pub mod prelude {
     pub use crate::iter::{
         FromParallelIterator, IndexedParallelIterator, IntoParallelIterator, IntoParallelRefIterator,
-        IntoParallelRefMutIterator, ParallelExtend, ParallelIterator,
+        IntoParallelRefMutIterator, ParallelBridge, ParallelExtend, ParallelIterator,
     };
     pub use crate::slice::{ParallelSlice, ParallelSliceMut};
 }
